@@ -24,6 +24,8 @@ def jobs(tier):
                         continue
                     js.append({'name': 'lemma first-pass deps shape=%d %s before=%s after=%s' % (shape, kind, before, after),
                                'harness': (H2, 'h_deps'), 'params': {'mode': 'Build', 'shape': shape, 'kind': kind, 'before': before, 'after': after}})
+    from . import project
+    js += project.jobs('C02', tier)
     return js
 
 
